@@ -2088,7 +2088,9 @@ lp_feasibility_set_int_t* lp_polynomial_constraint_get_feasible_set_Zp(const lp_
 
   lp_upolynomial_t *upoly = lp_polynomial_to_univariate_m(A, M);
   if (lp_upolynomial_degree(upoly) == 0) {
-    if (lp_upolynomial_is_zero(upoly)) {
+    int is_zero = lp_upolynomial_is_zero(upoly);
+    lp_upolynomial_delete(upoly);
+    if (is_zero) {
       return sgn_condition == LP_SGN_EQ_0 ? lp_feasibility_set_int_new_full(K) : lp_feasibility_set_int_new_empty(K);
     } else {
       return sgn_condition == LP_SGN_EQ_0 ? lp_feasibility_set_int_new_empty(K) : lp_feasibility_set_int_new_full(K);
